@@ -22,6 +22,11 @@ RV_FIXED = [
     "lui x1, 4\nsw x1, 0(x1)\nlh x2, 0(x1)\nsb x2, 3(x1)\nlw x3, 0(x1)\nbeq x3, x3, 8\naddi x4, x0, 1\naddi x5, x0, 2\n",
 ]
 
+RV_CSR = [
+    "addi x1, x0, 5\ncsrrw x2, 0x001, x1\naddi x3, x0, 1\ncsrrs x4, 0x001, x0\naddi x5, x4, 1\n",
+    "addi x1, x0, 3\ncsrrwi x2, 0x003, 7\ncsrrci x3, 0x003, 2\nadd x4, x2, x3\n",
+]
+
 RV_UNICODE = [
     ".data\nmsg: .string \"price: 5 \u20ac\"\n.text\nla a0, msg\naddi a7, zero, 4\necall\n",
     ".data\nq: .string \"\u201cquoted\u201d\"\n.text\nnop\n",
@@ -71,6 +76,8 @@ def gen_riscv(r):
         return r.choice(RV_FIXED)
     if k < 0.31:
         return r.choice(RV_UNICODE)
+    if k < 0.34:
+        return r.choice(RV_CSR)
     lines = []
     data = []
     has_data = r.random() < 0.5
@@ -133,6 +140,10 @@ def gen_riscv(r):
         elif c < 0.98:
             body.append(f"addi a7, zero, {r.choice([10, 93])}")
             body.append("ecall")
+        elif c < 0.985:
+            # instructions the front end cannot visualise (CSR) or does not implement (fence, ebreak: they fault)
+            body.append(r.choice(["csrrw x2, 0x001, x1", "csrrs x5, 0x003, x0", "csrrwi x6, 0x002, 5", "csrrci x7, 0x001, 3",
+                                  "csrrw x2, 0x300, x1", "fence x0, x0", "ebreak"]))
         else:
             body.append(r.choice(["lw x1, 0(x0)", "addi a7, zero, 5\necall", "sw x1, 1(x0)"]))  # run-time fault
     if loop:
